@@ -3,7 +3,7 @@
 # quick check, prints everything that is not a clean pass, and undoes the patch.
 ROOT="$(cd "$(dirname "${BASH_SOURCE[0]}")/.." && pwd)"
 cd "$ROOT"
-P="$1"
+P="$(realpath "$1")"
 if ! git -C /repo apply --check "$P" 2>/dev/null; then echo "PATCH-DOES-NOT-APPLY $P"; exit 2; fi
 git -C /repo apply "$P"
 trap 'git -C /repo checkout -- . ; git -C /repo clean -fdq -- redis examples' EXIT
